@@ -129,8 +129,8 @@ CLAIMS['C16'] = ('exploration', BND + 'The body of get_components builds a Pytho
                  'agreement with distance_bin, breadthdist, reachdist.', BND_NOTE % 'C16', 'bounded exhaustive enumeration with an independent union-find; pyvc prefix contract for the rejection clause', '5/C16')
 CLAIMS['C03'] = ('exploration', 'Partly deductive: distance_bin is proved for ALL graphs (pyvc+z3, 39 obligations): loop invariant of the algebraic-shortest-paths loop (support of nPATH = walks of exactly n connections, via the support '
                  'contract of np.dot on non-negative matrices; found entries hold the shortest-walk length; open entries have no walk shorter than n) and, at exit, by the walk-decomposition lemmas, every open pair has no walk at all: '
-                 'the result is the shortest-walk (= shortest-path) length, INF exactly when unreachable, 0 on the diagonal. Everything else the property names (distance_wei Dijkstra, distance_wei_floyd, breadthdist, reachdist, edge-count '
-                 'outputs, agreement of the five routines, charpath / efficiency_* / rout_efficiency means) is BOUNDED only: independent min-plus closure / BFS oracle on all digraphs n<=3/4, graphs n<=5/6, tie palettes, transforms. Level is '
+                 'the result is the shortest-walk (= shortest-path) length, INF exactly when unreachable, 0 on the diagonal. efficiency_bin (global variant) is proved too: its nested helper distance_inv runs the same loop and returns 1/length (0 where there is no path, 0 on the diagonal; proved on its own, used through its contract) and E = sum of these inverses / (n*n - n). Everything else the property names (distance_wei Dijkstra, distance_wei_floyd, breadthdist, reachdist, edge-count '
+                 'outputs, agreement of the five routines, charpath / efficiency_wei / local efficiency / rout_efficiency means) is BOUNDED only: independent min-plus closure / BFS oracle on all digraphs n<=3/4, graphs n<=5/6, tie palettes, transforms. Level is '
                  'exploration because 4 of the 5 distance routines are bounded.', BND_NOTE % 'C03' + ' Proved part: ' + PROOF_NOTE + ' Walk lemmas (incl. the pigeonhole bound sdist <= n-1) and INF > n are assumed.',
                  'pyvc + z3 + walk lemmas for distance_bin; exhaustive small-scope comparison with an independent min-plus/BFS oracle (bounded) for the rest', '5/C03')
 for _pid in ['C08', 'C16', 'C18', 'C19', 'C20']:
